@@ -34,17 +34,24 @@ def main():
         name = "seed_%s_%s" % (pid, n)
         res = {"seed": "%s/%s" % (pid, n), "head": subprocess.run(["git", "-C", WT, "rev-parse", "HEAD"], capture_output=True,
                                                                   text=True).stdout.strip()}
-        sh("git checkout -q -- . && git clean -fdq tests")
+        sh("git checkout -q -- . && git clean -fdq tests temporal_capi/tests")
         os.makedirs(os.path.join(WT, "tests"), exist_ok=True)
         demo_cmd = meta.get("demo_cmd", "cargo test --offline --test " + name)
         m = re.search(r"--test\s+(\S+)", demo_cmd)
         tname = m.group(1) if m else name
-        shutil.copy(os.path.join(sd, "demo.rs"), os.path.join(WT, "tests", tname + ".rs"))
+        pkg = ""
+        tdir = "tests"
+        m = re.search(r"-p\s+(\S+)", demo_cmd)
+        if m:
+            pkg = " -p " + m.group(1)
+            tdir = os.path.join(m.group(1), "tests")
+            os.makedirs(os.path.join(WT, tdir), exist_ok=True)
+        shutil.copy(os.path.join(sd, "demo.rs"), os.path.join(WT, tdir, tname + ".rs"))
         feats = ""
         m = re.search(r"--features[ =](\S+)", demo_cmd)
         if m:
             feats = " --features " + m.group(1)
-        cmd = "cargo test --offline --test %s%s" % (tname, feats)
+        cmd = "cargo test%s --offline --test %s%s" % (pkg, tname, feats)
         res["demo_cmd"] = cmd
         r = sh(cmd)
         res["demo_without_patch"] = "pass" if r.returncode == 0 else "FAIL"
@@ -59,12 +66,12 @@ def main():
             res["demo_with_patch"] = "fail" if r.returncode != 0 else "PASSES"
             tail = [l for l in r.stdout.splitlines() if "panicked" in l or "assert" in l][:3]
             res["demo_failure"] = tail
-            os.remove(os.path.join(WT, "tests", tname + ".rs"))
+            os.remove(os.path.join(WT, tdir, tname + ".rs"))
             t = sh("cargo test --workspace --no-fail-fast --offline")
             oks = re.findall(r"test result: (\w+)\. (\d+) passed; (\d+) failed", t.stdout)
             res["suite_with_patch"] = {"exit": t.returncode, "passed": sum(int(x[1]) for x in oks),
                                        "failed": sum(int(x[2]) for x in oks)}
-        sh("git checkout -q -- . && git clean -fdq tests")
+        sh("git checkout -q -- . && git clean -fdq tests temporal_capi/tests")
         res["confirmed"] = bool(res.get("demo_without_patch") == "pass" and res.get("demo_with_patch") == "fail"
                                 and res.get("builds") == "ok" and res.get("suite_with_patch", {}).get("exit") == 0)
         json.dump(res, open(os.path.join(sd, "verified.json"), "w"), indent=1)
